@@ -33,8 +33,8 @@ class Proxy:
         self.k += 1
         return self.w.writerow(row)
 @contextlib.contextmanager
-def patched(filename, delimiter="\t"):
-    with real(filename, delimiter) as w:
+def patched(*a, **kw):
+    with real(*a, **kw) as w:
         yield Proxy(w)
 tsv.get_tsv_writer = patched
 real_rename = os.rename
